@@ -21,7 +21,10 @@ def cmp(got, ref, what, key, case, rtol=1e-9, atol=1e-12):
     got = np.asarray(got, float)
     ref = np.asarray(ref, float)
     scale = np.maximum(np.abs(ref), np.abs(got))
-    bad = (np.abs(got - ref) > rtol * scale + atol) | ~np.isfinite(got)
+    # the absolute floor scales with the largest entry: an entry that is zero by cancellation of terms of size M carries
+    # rounding noise of order 1e-16*M in the reference itself
+    floor = atol * (1 + (float(np.abs(ref).max()) if ref.size else 0.0))
+    bad = (np.abs(got - ref) > rtol * scale + floor) | ~np.isfinite(got)
     if bad.any():
         i = tuple(int(k) for k in np.argwhere(bad)[0])
         raise PropertyViolation(key, "%s differs at %s: model %.15g, reference %.15g (max abs diff %.3g)" % (
